@@ -5,6 +5,36 @@ sys.path.insert(0, os.path.dirname(os.path.abspath(__file__)))
 import vlib
 
 
+def replay(path):
+    """re-run the recorded case(s) of a replay file through the implementation and the model"""
+    with open(path) as f:
+        rp = json.load(f)
+    head = rp.get("headline", {}).get("replay", {})
+    if "unchecked" in head and "case" not in head:
+        print(f"replay: no concrete input was found; the obligation that no longer checks is: {head['unchecked']}")
+        print(head.get("detail", "")[:2000])
+        return 1
+    mode, case = head.get("mode"), head.get("case")
+    if not mode or case is None:
+        print("replay: this replay file carries no line-protocol case; content:")
+        print(json.dumps(head, indent=1)[:3000])
+        return 1
+    ctx = vlib.Ctx(rp["property"], "quick", rp.get("seed", 1))
+    vlib.lake_build(ctx, ["driver"], {})
+    tvh = vlib.cargo_build(ctx, release=(head.get("build") == "release"))
+    impl, model = vlib.run_pair(ctx, tvh, mode, [case])
+    print(f"property: {rp['property']}  mode: {mode}")
+    print(f"case:  {case[:2000]}")
+    if "text" in head:
+        print(f"text:  {head['text'][:2000]!r}")
+    print(f"recorded: {rp['headline']['what'][:1000]}")
+    print(f"impl:  {impl[0][:3000]}")
+    print(f"model: {model[0][:3000]}")
+    same = impl[0] == model[0] or impl[0].split(' us=')[0] == model[0]
+    print("implementation and model " + ("agree on this case now" if same else "DISAGREE on this case"))
+    return 0 if same and not impl[0].startswith(("PANIC", "CRASH")) else 1
+
+
 def main():
     ap = argparse.ArgumentParser()
     ap.add_argument("prop")
@@ -16,10 +46,8 @@ def main():
     mod = importlib.import_module("props." + a.prop.lower())
     ctx = vlib.Ctx(a.prop.upper(), tier, seed)
     if a.replay:
-        with open(a.replay) as f:
-            ctx.replay = json.load(f)
-    else:
-        ctx.replay = None
+        sys.exit(replay(a.replay))
+    ctx.replay = None
     mod.run(ctx)
     sys.exit(ctx.finish())
 
